@@ -805,6 +805,11 @@ class Lib:
         interp.err(node, "%s on %s and %s" % (op, type(a).__name__, type(b).__name__))
 
     def compare_ext(self, interp, op, a, b, node):
+        if isinstance(a, SOpaque) and isinstance(b, SOpaque) and a.tag in ("set", "set?") and b.tag in ("set", "set?"):
+            if op == "<=":
+                return And(*[self.contains(interp, b, x, node) for x in a.payload]) if a.payload else True
+            if op == ">=":
+                return And(*[self.contains(interp, a, x, node) for x in b.payload]) if b.payload else True
         return NotImplemented
 
     def equal(self, interp, a, b, node):
@@ -859,7 +864,7 @@ class Lib:
             return member(x, container)
         if isinstance(container, SSeq):
             return member(x, container)
-        if isinstance(container, SOpaque) and container.tag == "set":
+        if isinstance(container, SOpaque) and container.tag in ("set", "set?"):
             return Or(*[self.value_eq(interp, x, y, node) for y in container.payload]) if container.payload else False
         interp.err(node, "`in` on %r" % (container,))
 
@@ -1286,6 +1291,11 @@ class Lib:
         return u
 
     def f_set__intersection(self, interp, args, kwargs, node):
+        if all(isinstance(a, SOpaque) and a.tag == "set" for a in args):
+            cur = list(args[0].payload)
+            for a in args[1:]:
+                cur = [x for x in cur if x in a.payload]
+            return SOpaque("set", cur)
         parts = []
         for a in args:
             if isinstance(a, SOpaque) and a.tag == "symset":
@@ -1611,6 +1621,13 @@ class Lib:
     def f_np__finfo(self, interp, args, kwargs, node):
         return SObj("finfo", {"eps": _EPS, "tiny": _TINY})
 
+    def f_scipy__special__kn(self, interp, args, kwargs, node):
+        n, x = args
+        nt = tz(n)
+        if z3.is_real(nt):
+            nt = z3.ToInt(nt)
+        return wrap(BESSEL_K(nt, treal(x)))
+
     def f_np__prod(self, interp, args, kwargs, node):
         items = self.iterate_concrete(interp, args[0], node)
         cur = 1
@@ -1776,6 +1793,9 @@ class Lib:
                 return SOpaque("set", seen)
             return SOpaque("symset", list(args))
         interp.err(node, "set.union on %r" % (obj,))
+
+
+BESSEL_K = z3.Function("BesselK", z3.IntSort(), z3.RealSort(), z3.RealSort())
 
 
 class _Absent:
